@@ -72,7 +72,12 @@ def run_variant(v):
             env = dict(os.environ, VERIF_REPO=tree, VERIF_EVIDENCE_DIR=ev)
             p = subprocess.run([os.path.join(VERIF, 'check'), v['property']], capture_output=True, text=True, env=env, cwd=VERIF, timeout=900)
             out = p.stdout + p.stderr
-            ok = p.returncode == 1 and 'VIOLATION property=' + v['property'] in out
+            if v.get('expect', 'fire') == 'silent':
+                ok = p.returncode == 0
+            else:
+                ok = p.returncode == 1 and 'VIOLATION property=' + v['property'] in out
+                if ok and v.get('names'):
+                    ok = all(s in out for s in v['names'])
             first = next((l for l in out.split('\n') if ' rule ' in l), '')[:260]
             return dict(v, result='OK' if ok else 'FAIL', rc=p.returncode, report=first)
         path = os.path.join(tree, v['file'])
